@@ -360,6 +360,8 @@ def run_forked(seg: Dict[str, Any], timeout: int = 120) -> Dict[str, Any]:
             except BaseException:
                 pass
         finally:
+            from .common import cov_save
+            cov_save()
             os._exit(code)
     os.close(w)
     chunks = []
